@@ -5,8 +5,9 @@ Helper lemmas for C10: the optimisers built on a search along a direction — `P
 
 * Powell: every line minimisation and the evaluation that follows it never increase `fret_`
   (`lineMinimization_spec`), so a step returns a value not above the one it began with
-  (`powellDoStep_spec`); the function may be left at the extrapolated point `ptt`, which is why the
-  invariant says `Off` (the function agrees with `pt0` outside the optimised names) and not `Sync`;
+  (`powellDoStep_spec`); the invariant says `Off` (the function agrees with `pt0` outside the optimised
+  names): before the repair of `doStep` the function could be left at the extrapolated point `ptt`; now
+  every branch ends with the function at the optimiser's parameters (`powellDoStep_at`);
   `optimize` ends on an evaluation at the optimiser's parameters.
 * conjugate gradient: `Coord.Inv` is kept and the value never increases (`cgDoStep_spec`).
 * BFGS (repaired): `Coord.Inv` is kept and a step ends no higher than the current value — a trial that
@@ -191,9 +192,15 @@ theorem powellDoStep_spec (pt0 : List ℝ) (ns : List Nat) (fuel : Nat) (s s' : 
                     hbd.good hbd.names off3 hl hf2
                   rw [← hbd.fret] at f
                   exact ⟨⟨a, b, c, e⟩, rfl, le_trans f hle⟩
-          · simp only [Except.ok.injEq, Prod.mk.injEq] at h
-            obtain ⟨rfl, rfl⟩ := h
-            exact ⟨⟨hbd.good, hbd.names, off3, hbd.fret⟩, rfl, hle⟩
+          · split at h
+            · cases h
+            · rename_i fn4 hsp
+              simp only [Except.ok.injEq, Prod.mk.injEq] at h
+              obtain ⟨rfl, rfl⟩ := h
+              have hpt := iface_set_point obj D cap _ _ _ hsp
+              have off4 : Off pt0 ns fn4 :=
+                off_of_matchPoint pt0 ns fn4 sd.core.params hbd.names (hpt.trans (matchPoint_off off3 _ hbd.names))
+              exact ⟨⟨hbd.good, hbd.names, off4, hbd.fret⟩, rfl, hle⟩
         · split at h
           · cases h
           · rename_i fn4 hsp
@@ -203,6 +210,59 @@ theorem powellDoStep_spec (pt0 : List ℝ) (ns : List Nat) (fuel : Nat) (s s' : 
             have off4 : Off pt0 ns fn4 :=
               off_of_matchPoint pt0 ns fn4 sd.core.params hbd.names (hpt.trans (matchPoint_off off3 _ hbd.names))
             exact ⟨⟨hbd.good, hbd.names, off4, hbd.fret⟩, rfl, hle⟩
+
+/-- **`PowellMultiDimensions::doStep`, repaired**: every branch leaves the function at the optimiser's
+parameters (the last thing a step does is an evaluation at them, or `setParameters` with them) -/
+theorem powellDoStep_at (pt0 : List ℝ) (ns : List Nat) (fuel : Nat) (s s' : St (Fn ℝ) (Powell ℝ) ℝ) (v : ℝ)
+    (hb : Powell.Base obj pt0 ns s) (h : powellDoStep (Fn.iface obj D cap) fuel s = .ok (s', v)) :
+    s'.fn.point = matchPoint pt0 s'.core.params := by
+  unfold powellDoStep at h
+  simp only [] at h
+  split at h
+  · cases h
+  · rename_i sd del ibig hd
+    obtain ⟨hbd, -⟩ := powellDirs_spec obj D cap pt0 ns fuel _ _ _ _ _ _ _
+      (by exact ⟨hb.good, hb.names, hb.off, hb.fret⟩) hd
+    split at h
+    · cases h
+    · rename_i ptt xit pt' hx
+      have hlk := powellExtrapolate_like _ _ _ _ _ hbd.good hx
+      have hnptt : names ptt = ns := hlk.names.trans hbd.names
+      try simp only [] at h
+      split at h
+      · cases h
+      · rename_i fn3 fptt hf
+        obtain ⟨-, -, off3⟩ := eval_off obj D cap pt0 ns _ fn3 ptt fptt hbd.off hnptt hf
+        try simp only [] at h
+        split at h
+        · split at h
+          · split at h
+            · cases h
+            · rename_i fn4 pl xit' k hl
+              try simp only [] at h
+              split at h
+              · cases h
+              · rename_i fn5 fret hf2
+                try simp only [] at h
+                split at h
+                · cases h
+                · simp only [Except.ok.injEq, Prod.mk.injEq] at h
+                  obtain ⟨rfl, rfl⟩ := h
+                  obtain ⟨_, _, _, d, _, _⟩ := line_eval obj D cap pt0 ns fuel fn3 fn4 fn5 sd.core.params pl xit xit' k _
+                    hbd.good hbd.names off3 hl hf2
+                  exact d
+          · split at h
+            · cases h
+            · rename_i fn4 hsp
+              simp only [Except.ok.injEq, Prod.mk.injEq] at h
+              obtain ⟨rfl, rfl⟩ := h
+              exact (iface_set_point obj D cap _ _ _ hsp).trans (matchPoint_off off3 _ hbd.names)
+        · split at h
+          · cases h
+          · rename_i fn4 hsp
+            simp only [Except.ok.injEq, Prod.mk.injEq] at h
+            obtain ⟨rfl, rfl⟩ := h
+            exact (iface_set_point obj D cap _ _ _ hsp).trans (matchPoint_off off3 _ hbd.names)
 
 theorem powellStop_same {F : Type} (s : St F (Powell ℝ) ℝ) :
     (powellStop s).1.fn = s.fn ∧ (powellStop s).1.core.params = s.core.params ∧ (powellStop s).1.core.cur = s.core.cur ∧
